@@ -41,7 +41,7 @@ PROPS = {
     claim="Proof of NumPy's shape law, source-index law and element law for transpose (default and compile-time axes), moveaxis and swapaxes (compile-time axes incl. negative) at ranks 1..4 for every extent and index, and the same laws for run-time axes (transpose with a run-time permutation, moveaxis with run-time ints) and for arrays whose shape is a bounded run-time-length static_vector (the library's run-time-loop branches); reshape/flatten/squeeze/flip/expand_dims element laws are not decided.",
     note=E1_NOTE,
     technique=E1_TECH,
-    e1=[dict(tu="c03_rearrange.cpp"), dict(tu="c03b_dynamic.cpp")],
+    e1=[dict(tu="c03_rearrange.cpp"), dict(tu="c03b_dynamic.cpp"), dict(tu="c15_args.cpp")],
     rule=E1_RULE,
     explanation="expected shape and source index are written from NumPy's definitions in the driver; the element law is equality of the bits loaded through the view and through the source at the expected index.",
     not_decided="reshape incl. -1, flatten, expand_dims, atleast_nd element maps (div/mod round trip), squeeze, flip, run-time axes, dynamic shapes",
@@ -71,10 +71,10 @@ PROPS = {
  ),
  "C15": dict(
     level="proof",
-    claim="Proof of the value/Nothing boundary of broadcast_shape (all rank pairs up to 3x3) and of moveaxis with in-range versus out-of-range compile-time axes; plus, over ~6000 instantiated functions of the maybe-lifting layer (index, view, eval, kernel helper, isequal/isclose), every dereference of a maybe-typed expression is dominated by the true edge of a truth test on that expression, and every integer division in index/ and view/ has a validated or role-justified divisor (the reshape divisor is tied to the zero-extent validation). The value/Nothing boundary of the remaining operations is not decided.",
+    claim="Proof of the value/Nothing boundary of broadcast_shape (all rank pairs up to 3x3), of moveaxis with in-range versus out-of-range compile-time and run-time axes, of normalize_axis (scalar and arrays of 1..3 axes, every ndim <= 64) with NumPy's normalised value, and of shape_reshape (element-count mismatch, zero extent, negative extent, two -1, one -1 with/without divisibility, inferred extent = numel / product of the others); plus, over ~6000 instantiated functions of the maybe-lifting layer (index, view, eval, kernel helper, isequal/isclose), every dereference of a maybe-typed expression is dominated by the true edge of a truth test on that expression, and every integer division in index/ and view/ has a validated or role-justified divisor (the reshape divisor is tied to the zero-extent validation). The value/Nothing boundary of the remaining operations is not decided.",
     note=E1_NOTE + " " + E2_NOTE,
     technique=E1_TECH + " + CFG typestate/dominance rules (test-before-dereference, zero-guarded division) on instantiations",
-    e1=[dict(tu="c06_broadcast.cpp"), dict(tu="c03_rearrange.cpp"), dict(tu="c03b_dynamic.cpp")],
+    e1=[dict(tu="c06_broadcast.cpp"), dict(tu="c03_rearrange.cpp"), dict(tu="c03b_dynamic.cpp"), dict(tu="c15_args.cpp")],
     e2=[dict(rule="R-MAYBE-DIV")],
     rule=E1_RULE + "; E2: one instance per dereference of a maybe-typed expression / per integer division site in the instantiated lifting functions (drivers/maybe_inst.cpp)",
     explanation="value exactly when NumPy accepts, Nothing exactly when NumPy raises, for the listed operations; an empty optional is never dereferenced = every dereference is dominated by a truth test of the same expression (typestate rule on the CFG); no division by an unvalidated user-derived divisor.",
